@@ -93,13 +93,104 @@ def make_p2p_stub():
     return out
 
 def make_overlay(name, injected):
-    """injected: dict repo-relative target path -> absolute source path under /verif. Returns overlay json path."""
-    rep = {os.path.join(REPO, "node/pkg/p2p/p2p.go"): make_p2p_stub()}
+    """injected: dict repo-relative target path -> absolute source path under /verif. Returns overlay json path.
+    A harness whose pkg.json (next to its injected files) says `"p2p": "tcp"` gets the REAL p2p.go with only the transport
+    changed (make_p2p_tcp) instead of the Run stub; everybody else gets the stub as before."""
+    if p2p_variant(injected) == "tcp":
+        rep = dict(make_p2p_tcp())
+    else:
+        rep = {os.path.join(REPO, "node/pkg/p2p/p2p.go"): make_p2p_stub()}
     for tgt, srcp in injected.items():
         rep[os.path.join(REPO, tgt)] = srcp
     ov = os.path.join(BUILD, "overlay", "overlay_%s.json" % name)
     json.dump({"Replace": rep}, open(ov, "w"), indent=1)
     return ov
+
+# ------------------------------------------------------------------ the real p2p.Run over TCP (extension X5)
+# environment a `go` command needs so that the overlay of a file inside the module cache is honoured (the module index
+# cache of the go command is built from the un-overlaid files)
+TCP_ENV = {"GODEBUG": "goindex=0"}
+
+TCP_ANCHORS = [
+    # (what, regex on the working tree's p2p.go, replacement)
+    ("quic transport import",
+     r'^(\s*)libp2pquic "github\.com/libp2p/go-libp2p/p2p/transport/quic"[ \t]*$',
+     r'\1libp2ptcp "github.com/libp2p/go-libp2p/p2p/transport/tcp"'),
+    ("libp2p.Transport(libp2pquic.NewTransport)",
+     r'libp2p\.Transport\(libp2pquic\.NewTransport\)',
+     r'libp2p.Transport(libp2ptcp.NewTCPTransport)'),
+    ("ip4 quic listen address",
+     r'fmt\.Sprintf\("/ip4/0\.0\.0\.0/udp/%d/quic", port\)',
+     r'fmt.Sprintf("/ip4/127.0.0.1/tcp/%d", port)'),
+    ("ip6 quic listen address",
+     r'fmt\.Sprintf\("/ip6/::/udp/%d/quic", port\)',
+     r'fmt.Sprintf("/ip4/127.0.0.1/tcp/%d", port)'),
+]
+
+
+def p2p_variant(injected):
+    """"tcp" when the pkg.json in the directory of one of the injected harness files asks for it, else "stub" """
+    for srcp in injected.values():
+        pj = os.path.join(os.path.dirname(srcp), "pkg.json")
+        try:
+            if json.load(open(pj)).get("p2p") == "tcp":
+                return "tcp"
+        except (OSError, ValueError):
+            pass
+    return "stub"
+
+
+def _libp2p_dir():
+    """directory of the go-libp2p module the working tree's node/go.mod selects"""
+    r = subprocess.run(["go", "list", "-m", "-f", "{{.Dir}}", "github.com/libp2p/go-libp2p"],
+                       cwd=os.path.join(REPO, "node"), env=GOENV, capture_output=True, text=True)
+    d = r.stdout.strip()
+    if r.returncode != 0 or not d or not os.path.isdir(d):
+        raise RuntimeError("mkoverlay: cannot locate module github.com/libp2p/go-libp2p: " + (r.stderr or r.stdout)[-500:])
+    return d
+
+
+def make_p2p_tcp():
+    """returns {path to replace: replacement file}: (1) node/pkg/p2p/p2p.go of the working tree with ONLY the transport changed
+    (quic import -> tcp import, libp2p.Transport(quic) -> TCP, the two listen addresses -> /ip4/127.0.0.1/tcp/<port>), every
+    other byte — in particular all of the receive / dispatch loop of Run — is the working tree's; regenerated on every call;
+    (2) go-libp2p's defaults.go without the QUIC entry of DefaultTransports (the root package imports the QUIC transport only
+    for that default, which p2p.Run overrides with an explicit libp2p.Transport option anyway).
+    Raises RuntimeError (machinery problem) when an anchor is missing.  Commands using the result need TCP_ENV."""
+    path = os.path.join(REPO, "node/pkg/p2p/p2p.go")
+    src = open(path).read()
+    out = src
+    for what, pat, repl in TCP_ANCHORS:
+        out, n = re.subn(pat, repl, out, flags=re.M)
+        if n != 1:
+            raise RuntimeError("mkoverlay(tcp): anchor `%s` found %d times in p2p.go (exactly 1 expected)" % (what, n))
+    if "quic" in re.sub(r'//[^\n]*', '', out).lower():
+        raise RuntimeError("mkoverlay(tcp): p2p.go still mentions quic outside comments after the transport swap")
+    # exactly the four anchored lines differ; every other line of the file is the working tree's
+    a, b = src.split("\n"), out.split("\n")
+    if len(a) != len(b) or sum(1 for x, y in zip(a, b) if x != y) != len(TCP_ANCHORS):
+        raise RuntimeError("mkoverlay(tcp): the transport swap changed something else than its %d anchored lines" % len(TCP_ANCHORS))
+    os.makedirs(os.path.join(BUILD, "overlay"), exist_ok=True)
+    h = hashlib.sha256(out.encode()).hexdigest()[:16]
+    outp = os.path.join(BUILD, "overlay", "p2p_tcp_%s.go" % h)
+    tmp = outp + ".%d.tmp" % os.getpid()
+    open(tmp, "w").write(out)
+    os.replace(tmp, outp)
+    # libp2p root package: drop the QUIC default transport
+    ld = _libp2p_dir()
+    dpath = os.path.join(ld, "defaults.go")
+    dsrc = open(dpath).read()
+    dnew, n1 = re.subn(r'^\s*(\w+) "github\.com/libp2p/go-libp2p/p2p/transport/quic"[ \t]*\n', '', dsrc, flags=re.M)
+    dnew, n2 = re.subn(r'^\s*Transport\(quic\.NewTransport\),[ \t]*\n', '', dnew, flags=re.M)
+    if n1 != 1 or n2 != 1 or "quic" in re.sub(r'//[^\n]*', '', dnew):
+        raise RuntimeError("mkoverlay(tcp): go-libp2p defaults.go does not have the expected QUIC import / default transport entry")
+    dh = hashlib.sha256(dnew.encode()).hexdigest()[:16]
+    doutp = os.path.join(BUILD, "overlay", "libp2p_defaults_%s.go" % dh)
+    tmp = doutp + ".%d.tmp" % os.getpid()
+    open(tmp, "w").write(dnew)
+    os.replace(tmp, doutp)
+    return {path: outp, dpath: doutp}
+
 
 if __name__ == "__main__":
     print(make_p2p_stub())
